@@ -319,6 +319,24 @@ func VH_C02_SweepVsPresentation() {
 	zzverif.Reach("done")
 }
 
+// VH_C02_SweeperSkew: two services of one process with different clock skews share the replay cache (it is a
+// singleton) and its background sweeper.  The sweeper - the goroutine GetReplayCache starts, run here through
+// one wake-up - must not drop an authenticator that the service with the larger skew would still accept.
+func VH_C02_SweeperSkew() {
+	d1, d2 := time.Minute, 10*time.Minute
+	c1 := GetReplayCache(d1) // the first caller starts the sweeper
+	c2 := GetReplayCache(d2)
+	zzverif.Assert("one-cache-per-process", c1 == c2)
+	ct := zzverif.Now()
+	a := vhAuth("c", ct, 0)
+	zzverif.Assert("first-presentation-accepted", !c2.IsReplay(vhSvc("s"), a))
+	zzverif.Background(0, 1) // the sweeper sleeps, wakes up and sweeps once
+	now := zzverif.Now()
+	zzverif.Assume(now.Sub(ct) <= d2) // the service with skew d2 would still accept the authenticator
+	zzverif.Reach("swept")
+	zzverif.Assert("replay-detected-after-the-sweepers-pass", c2.IsReplay(vhSvc("s"), a))
+}
+
 // VH_C02_History: every history of k operations over {present a1, present a2, clean-up} from the empty
 // cache, the clock advancing arbitrarily between operations.  A presentation of an authenticator that
 // was accepted before and is still inside the skew window must be reported as a replay; an
